@@ -1,6 +1,7 @@
 import HappyModel.C16.TierDriver
 import HappyProofs.C16.TierInv
 import HappyProofs.C16.TierSeq
+import HappyProofs.C16.TRawK
 /-!
 # C16 — property theorems for `MultiTierCache` (imported by `Props.lean`)
 
@@ -58,9 +59,8 @@ def mobsRun (cfg : MCfg) (ms : MSt) : List MAct → List MObs
   | a :: as => ⟨a.opId, (mstep cfg ms a).1.tiers.map viewOf, (mstep cfg ms a).2⟩ :: mobsRun cfg (mstep cfg ms a).1 as
 
 /-- `multitier_read_after_write` at the property's strength: for every interleaving the observed run
-    of the repaired multi-tier cache passes the Spec's read clause.  NOT PROVED (the proved part is
-    `multitier_read_after_write_sequential`); every generated overlapping schedule is judged by the
-    same predicate on the implementation's transcript in every run of the check. -/
+    of the repaired multi-tier cache passes the Spec's read clause.  Proved below
+    (`multitier_read_after_write_all_interleavings`). -/
 def multitier_read_after_write_full : Prop :=
   ∀ (cfg : MCfg), cfg.rep = true → SeqCfg cfg →
   ∀ (pols : List Pol), Named pols → pols.length = cfg.tiers.length →
@@ -70,6 +70,46 @@ def multitier_read_after_write_full : Prop :=
     (as.filterMap fun a => match a with | .start i _ _ => some i | _ => none).Nodup →
     (ops.filterMap fun x => match x.2 with | .put _ v => some v | _ => none).Nodup →
     Tier.judgeReads ops (mobsRun cfg (MSt.init pols) as) = none
+
+theorem mobsRun_toObs (cfg : MCfg) (ms : MSt) (as : List MAct) :
+    (mobsRun cfg ms as).map MObs.toObs = mobsRunG cfg ms as := by
+  induction as generalizing ms with
+  | nil => rfl
+  | cons a as ih =>
+    have : a.opId = mactId a := by cases a <;> rfl
+    simp only [mobsRun, mobsRunG, List.map_cons, MObs.toObs, this, ih]
+
+/-- **`multitier_read_after_write` for all interleavings** (repaired `MultiTierCache` over repaired
+    write-through tiers, any number of tiers, capacities, policies and promotion policy, every schedule
+    of segments of get / put / delete / invalidate / invalidate_all and direct tier reads): the judge's
+    read clause accepts the observed run.  Invariant (`MInv`, files `TRaw*.lean`): a `put` / `delete`
+    reaches the backing store in its second segment and invalidates every tier right there, so every
+    tier cache entry and the backing store hold the value of a write that no write *which has reached
+    the backing store* entirely follows — in particular none that completed; a value read from a lower
+    tier is promoted into L1 only if the key's epoch is unchanged and nothing is in flight, and then
+    every started write had completed before the read was issued. -/
+theorem multitier_read_after_write_all_interleavings : multitier_read_after_write_full := by
+  intro cfg hrep hc pols _ hlen ops as hnd htab hst _
+  exact mraw_judge cfg hrep hc pols hlen ops hnd as htab hst _ (mobsRun_toObs cfg _ as)
+
+/-- non-vacuity: two tiers, a `get` that hits L2 and is in flight while a `put` of the same key runs
+    all three of its segments, then a later `get`: the repaired hierarchy does not promote the old value
+    (epoch changed) and the later `get` returns the new one; the table and schedule satisfy the
+    theorem's hypotheses -/
+example :
+    let ops : List (Nat × MOp) := [(0, .put 0 1), (1, .inv 0), (2, .tget 1 0), (3, .get 0), (4, .put 0 2), (5, .get 0)]
+    let as : List MAct := [.start 0 (.put 0 1) 0, .resume 0 0, .resume 0 0, .start 1 (.inv 0) 0,
+      .start 2 (.tget 1 0) 0, .resume 2 0, .start 3 (.get 0) 0, .start 4 (.put 0 2) 0, .resume 4 0, .resume 4 0,
+      .resume 3 0, .start 5 (.get 0) 0, .resume 5 0]
+    (ops.map (·.1)).Nodup ∧
+    (as.filterMap fun a => match a with | .start i _ _ => some i | _ => none).Nodup ∧
+    (ops.filterMap fun x => match x.2 with | .put _ v => some v | _ => none).Nodup ∧
+    Tier.judgeReads ops (mobsRun (wCfg true) wInit as) = none ∧
+    (mobsRun (wCfg true) wInit as).map (·.res) =
+      [none, none, some .none, some .none, none, some (.val 1), none, none, none, some .none,
+       some (.val 1), none, some (.val 2)] ∧
+    Tier.judgeReads ops (mobsRun (wCfg false) wInit as) = some "multitier/read-after-write/stale/after-put" := by
+  decide
 
 /-- `multitier_read_after_write_sequential` (repaired variant, write-through tiers): when operations
     do not overlap (each runs all its segments before the next starts — `mexec`), the hierarchy is a
